@@ -6,8 +6,8 @@ import sys
 import time
 
 ROOT = os.path.dirname(os.path.dirname(os.path.abspath(__file__)))
-OUT = os.path.join(ROOT, 'out')
-EVID = os.path.join(ROOT, 'evidence')
+OUT = os.environ.get('VERIF_OUT', os.path.join(ROOT, 'out'))
+EVID = os.environ.get('VERIF_EVID', os.path.join(ROOT, 'evidence'))
 KNOWN = os.path.join(ROOT, 'known_findings.json')
 
 
